@@ -12,7 +12,7 @@
    Definitions only.  The Rc machine that is proved to refine this is Rc/Cow.v. *)
 From Coq Require Import ZArith List Bool.
 Import ListNotations.
-Open Scope Z_scope.
+Local Open Scope Z_scope.
 
 (* ------------------------------------------------------------------ values *)
 Inductive kind := KList | KDict | KStr | KVec | KBytes.
